@@ -324,8 +324,8 @@ def make_controller(c):
     import nifty.cl as ift
     k = c["kind"]
     if k == "gradnorm":
-        return ift.GradientNormController(tol_abs_gradnorm=c["tol"], iteration_limit=c["limit"],
-                                          convergence_level=c.get("level", 1))
+        return ift.GradientNormController(tol_abs_gradnorm=c["tol"], tol_rel_gradnorm=c.get("tol_rel"),
+                                          iteration_limit=c["limit"], convergence_level=c.get("level", 1))
     if k == "deltaE":
         return ift.DeltaEnergyController(tol_rel_deltaE=c["tol"], iteration_limit=c["limit"],
                                          convergence_level=c.get("level", 1))
@@ -425,6 +425,142 @@ def run_dm_case(spec):
     out["gz"] = [bool(o.gradient_norm == 0) for o in objs]
     out.update(rec)
     return out
+
+
+class _DMSession:
+    """One minimiser object (with the controller it holds) used for several runs.  Same recording as
+    run_dm_case, plus every descent direction with the point it was computed at."""
+
+    def __init__(self, spec):
+        import nifty.cl as ift
+        from nifty.cl.minimization.line_search import LineSearch
+        self.spec = spec
+        self.rec = None
+        self.objs = None
+        ses = self
+        p = spec.get("ls_params")
+        inner_ls = None if p is None else LineSearch(
+            preferred_initial_step_size=p["pref"], c1=p["c1"], c2=p["c2"], max_step_size=p["max_step"],
+            max_iterations=p["max_it"], max_zoom_iterations=p["max_zoom"])
+
+        class RecLS:
+            def __init__(self, inner):
+                self.inner = inner
+
+            def perform_line_search(self, energy, pk, f_k_minus_1=None):
+                ne, ok = self.inner.perform_line_search(energy, pk, f_k_minus_1)
+                ses.rec["ls"].append((ses.idx(energy), None if f_k_minus_1 is None else float(f_k_minus_1),
+                                      ses.idx(ne), bool(ok)))
+                ses.rec["wolfe"].append(wolfe_nd(self.inner, energy, pk, ne, bool(ok)))
+                return ne, ok
+
+        inner_c = make_controller(spec["ctrl"])
+
+        class RecC(ift.IterationController):
+            def start(self, energy):
+                s = inner_c.start(energy)
+                ses.rec["start"] = int(s)
+                return s
+
+            def check(self, energy):
+                s = inner_c.check(energy)
+                ses.rec["checks"].append(int(s))
+                ses.rec["acc"].append(ses.idx(energy))
+                return s
+
+        kind = spec["minimizer"]
+        if inner_ls is None:
+            inner_ls = make_minimizer(kind, RecC(), None, spec.get("mh", 5)).line_searcher
+        self.mini = make_minimizer(kind, RecC(), RecLS(inner_ls), spec.get("mh", 5))
+        orig = self.mini.get_descent_direction
+
+        def wrapped(energy, old_value=None):
+            pk = orig(energy, old_value)
+            ses.rec["dirs"].append((energy.position.asnumpy().copy(), energy.gradient.asnumpy().copy(),
+                                    pk.asnumpy().copy(), len(ses.rec["ls"])))
+            return pk
+        self.mini.get_descent_direction = wrapped
+
+    def idx(self, e):
+        for i, o in enumerate(self.objs):
+            if o is e:
+                return i
+        self.objs.append(e)
+        return len(self.objs) - 1
+
+    def run(self, espec):
+        import warnings
+        e0, dom = make_nd_energy(espec)
+        self.objs = [e0]
+        self.rec = {"ls": [], "start": None, "checks": [], "acc": [0], "wolfe": [], "dirs": []}
+        sp = dict(self.spec)
+        sp.update(espec)
+        out = {"spec": sp}
+        try:
+            with warnings.catch_warnings():
+                warnings.simplefilter("ignore")
+                en, st = self.mini(e0)
+            out["result"] = (self.idx(en), int(st))
+        except (ValueError, ZeroDivisionError) as ex:
+            out["result"] = None
+            out["exception"] = "%s: %s" % (type(ex).__name__, str(ex)[:80])
+        out["values"] = [float(o.value) for o in self.objs]
+        out["gz"] = [bool(o.gradient_norm == 0) for o in self.objs]
+        out.update(self.rec)
+        return out
+
+
+def run_reuse_case(spec):
+    """spec = minimiser configuration + 'runs': list of energy specs.  ONE minimiser object performs all
+    runs; every run is repeated on a freshly constructed object for comparison."""
+    ses = _DMSession(spec)
+    reused = [ses.run(e) for e in spec["runs"]]
+    fresh = [_DMSession(spec).run(e) for e in spec["runs"]]
+    return {"spec": spec, "reused": reused, "fresh": fresh}
+
+
+def epoch_windows(o, mh):
+    """For every direction call of one run: the pairs a minimiser in its INITIAL state would hold --
+    the history since the start of this run or since the last failed line search (which resets)."""
+    out = []
+    hist = []
+    for (x, g, pk, nls) in o["dirs"]:
+        if nls > 0 and not o["ls"][nls - 1][3]:
+            hist = []                          # the previous line search failed: self.reset()
+        hist.append((x, g))
+        k = len(hist) - 1
+        m = min(k, mh)
+        pts = hist[len(hist) - 1 - m:]
+        S = [(pts[i + 1][0] - pts[i][0]).tolist() for i in range(m)]
+        Y = [(pts[i + 1][1] - pts[i][1]).tolist() for i in range(m)]
+        out.append({"m": m, "S": S, "Y": Y, "g": g.tolist(), "p": pk.tolist()})
+    return out
+
+
+REUSE_DIR_TOL = 1e-6   # relative; a stale history changes the direction by O(1), rounding by ~1e-13
+
+
+def reuse_failure(o):
+    """A call of a minimiser is a function of (energy, configuration) only: the run on the re-used
+    object equals the run on a fresh object, and the first direction of a run that starts from an empty
+    history is -gradient (L_BFGS, VL_BFGS, SteepestDescent)."""
+    kind = o["spec"]["minimizer"]
+    for r, (a, b) in enumerate(zip(o["reused"], o["fresh"])):
+        f = dm_failure(a)
+        if f:
+            return "run %d on a re-used %s: %s" % (r, kind, f)
+        if kind in ("L_BFGS", "VL_BFGS", "SteepestDescent") and a["dirs"]:
+            x, g, pk, _ = a["dirs"][0]
+            if not np.allclose(pk, -g, rtol=1e-12, atol=0.0):
+                return "run %d: first direction of a re-used %s is not -gradient (relative deviation %.3g)" % (
+                    r, kind, float(np.linalg.norm(pk + g) / (np.linalg.norm(g) + 1e-300)))
+        same = (a["result"] == b["result"] and a["values"] == b["values"] and a["ls"] == b["ls"]
+                and a["acc"] == b["acc"] and a["start"] == b["start"] and a["checks"] == b["checks"]
+                and len(a["dirs"]) == len(b["dirs"])
+                and all(np.array_equal(u[2], v[2]) for u, v in zip(a["dirs"], b["dirs"])))
+        if not same and not any(math.isnan(v) for v in a["values"] + b["values"]):
+            return "run %d of a re-used %s object differs from the same run on a fresh object (state leaks between minimisations)" % (r, kind)
+    return None
 
 
 def wolfe_nd(ls, energy, pk, ne, ok):
@@ -698,6 +834,30 @@ def gen_dm_spec(rng, i):
     return s
 
 
+def gen_reuse_spec(rng, i):
+    kinds = ["L_BFGS", "VL_BFGS", "SteepestDescent", "NewtonCG", "RelaxedNewton"]
+    kind = kinds[i % 5]
+    n = int(rng.integers(2, 7))
+    runs = []
+    for _ in range(int(rng.integers(2, 4))):
+        M = rng.normal(size=(n, n))
+        A = M @ M.T + np.eye(n)
+        runs.append({"A": A.tolist(), "b": rng.normal(size=n).tolist(),
+                     "q": rng.uniform(0.05, 1.0, size=n).tolist(), "t": [0.0] * n,
+                     "x0": (float(rng.choice([0.5, 3.0])) * rng.normal(size=n)).tolist()})
+    u = rng.random()
+    lim = int(rng.integers(3, 9))
+    if u < 0.4:
+        ctrl = {"kind": "gradnorm", "tol": 1e-7, "limit": lim}
+    elif u < 0.6:
+        ctrl = {"kind": "gradnorm", "tol": None, "tol_rel": float(10.0 ** rng.integers(-6, -1)), "limit": lim}
+    elif u < 0.8:
+        ctrl = {"kind": "deltaE", "tol": float(10.0 ** rng.integers(-9, -3)), "limit": lim}
+    else:
+        ctrl = {"kind": "absdeltaE", "tol": float(10.0 ** rng.integers(-9, -3)), "limit": lim}
+    return {"minimizer": kind, "mh": int(rng.integers(1, 5)), "ctrl": ctrl, "runs": runs}
+
+
 def gen_bfgs_spec(rng, i):
     return {"n": int(rng.integers(1, 9)), "mh": int(1 + i % 5), "seed": int(rng.integers(0, 1 << 30)),
             "cond": float(rng.choice([1.5, 10.0, 100.0])), "steps": int(rng.integers(2, 14)),
@@ -747,6 +907,7 @@ class C16(C.Check):
 
     def __init__(self):
         self.ls_obs, self.dm_obs, self.bfgs_specs, self.b_obs = [], [], [], []
+        self.reuse_specs, self.reuse_obs = [], []
 
     def _cases(self, ctx):
         rng = ctx.rng(16)
@@ -757,6 +918,9 @@ class C16(C.Check):
         ls += [gen_ls_spec(rng) for _ in range(nls)]
         dm += [gen_dm_spec(rng, i) for i in range(ndm)]
         bf += [gen_bfgs_spec(rng, i) for i in range(nb)]
+        rrng = ctx.rng(1616)          # own stream: the earlier case lists stay exactly as they were
+        self.reuse_specs = [c["spec"] for c in ctx.corpus() if c.get("kind") == "reuse"]
+        self.reuse_specs += [gen_reuse_spec(rrng, i) for i in range(15 if ctx.quick else 150)]
         return ls, dm, bf
 
     def correspondence(self, ctx, res):
@@ -772,10 +936,21 @@ class C16(C.Check):
         self.b_obs = [r for sp in bf for r in run_bfgs_case(sp, record=True)["recs"]]
         n_pre = len(checks)
         checks += [coq_delta_case(r) for r in self.b_obs]
+        # one minimiser object used for several runs: every run must replay in the model started from
+        # the INITIAL state (f_k_minus_1 = None at the first line search, fresh controller verdicts)
+        self.reuse_obs = [run_reuse_case(sp) for sp in self.reuse_specs]
+        n_pre_reuse = len(checks)
+        reuse_runs = [(o, r) for o in self.reuse_obs for r in o["reused"] if r["result"] is not None]
+        checks += [coq_dm_case(r) for _, r in reuse_runs]
         bad = C.eval_cases(self.prop, "corr", HEADER, checks)
         nls = len(self.ls_obs)
         for i in bad[:4]:
-            if i >= n_pre:
+            if i >= n_pre_reuse:
+                o, r = reuse_runs[i - n_pre_reuse]
+                res.add_broken("correspondence", "DescentMinimizer.__call__ on a re-used object vs coq/C16/Model.v (initial state)",
+                               {"kind": "reuse", "spec": o["spec"], "result": r["result"], "ls": r["ls"], "checks": r["checks"],
+                                "acc": r["acc"], "values": r["values"]})
+            elif i >= n_pre:
                 r = self.b_obs[i - n_pre]
                 res.add_broken("correspondence", "_InformationStore.delta vs coq/C16/Model.v (bit-exact from b_dot_b)",
                                {"kind": "bfgs", "m": r["m"], "bdb": r["bdb"], "delta": r["delta"]})
@@ -808,6 +983,35 @@ class C16(C.Check):
                     res.add_broken("correspondence", "L_BFGS/VL_BFGS.get_descent_direction vs coq/C16/Model.v (tolerance %g)" % DIR_TOL,
                                    {"kind": "bfgs", "m": r["m"], "mh": r["mh"], "k": r["k"], "S": r["S"], "Y": r["Y"], "g": r["g"],
                                     "pL": r["pL"], "pV": r["pV"], "model": lists})
+        # directions of re-used L_BFGS / VL_BFGS objects vs the model evaluated on the window a minimiser
+        # in its initial state would hold (history of THIS run since its start / last failed line search)
+        rwin = []
+        for o in self.reuse_obs:
+            kind = o["spec"]["minimizer"]
+            if kind not in ("L_BFGS", "VL_BFGS"):
+                continue
+            for r in o["reused"]:
+                for w in epoch_windows(r, o["spec"]["mh"]):
+                    rwin.append((o, kind, w))
+        rprinted = C.eval_terms(self.prop, "reuse_dirs", HEADER, [coq_dirs_term(w) for _, _, w in rwin]) if rwin else []
+        nreuse_bad = 0
+        worst_reuse = 0.0
+        for (o, kind, w), txt in zip(rwin, rprinted):
+            lists = parse_float_lists(txt or "")
+            ok = len(lists) == 2 and len(lists[0]) == len(w["g"]) and len(lists[1]) == len(w["g"])
+            if ok:
+                ref = np.array(lists[0] if kind == "L_BFGS" else lists[1])
+                if not np.all(np.isfinite(ref)):
+                    continue                     # degenerate pair (0/0) in the model: nothing to compare
+                dev = float(np.linalg.norm(ref - np.array(w["p"])) / (np.linalg.norm(ref) + 1e-300))
+                worst_reuse = max(worst_reuse, dev)
+                ok = dev <= REUSE_DIR_TOL
+            if not ok:
+                nreuse_bad += 1
+                if nreuse_bad <= 2:
+                    res.add_broken("correspondence", "%s.get_descent_direction of a re-used object vs coq/C16/Model.v on the fresh window (tolerance %g)" % (kind, REUSE_DIR_TOL),
+                                   {"kind": "reuse", "spec": o["spec"], "m": w["m"], "p": w["p"], "model": lists})
+        ndir_bad += nreuse_bad
         zoomed = sum(1 for o in self.ls_obs if o["quad"])
         backtracked = sum(1 for o in self.ls_obs if any(
             k == "atfail" for k, _ in o["log"]) or any(isinstance(v[0], float) and (math.isnan(v[0]) or abs(v[0]) > 1e100) for v in o["table"].values()))
@@ -816,12 +1020,13 @@ class C16(C.Check):
         nontriv = {C.stable_hash(o["spec"]) for o in self.ls_obs if len(o["log"]) > 4}
         nontriv |= {C.stable_hash(o["spec"]) for o in self.dm_obs if len(o["ls"]) >= 1}
         nontriv |= {C.stable_hash([r["S"], r["g"]]) for r in self.b_obs if r["m"] >= 1}
+        nontriv |= {C.stable_hash(o["spec"]) for o in self.reuse_obs if len(o["reused"]) >= 2}
         stat = {}
         for o in self.dm_obs:
             key = "%s:%s" % (o["spec"]["minimizer"], "none" if o["result"] is None else ST[o["result"][1]])
             stat[key] = stat.get(key, 0) + 1
         res.coverage.update({
-            "evaluations": len(checks) + len(dir_terms), "distinct_nontrivial": len(nontriv),
+            "evaluations": len(checks) + len(dir_terms) + len(rwin), "distinct_nontrivial": len(nontriv),
             "rule": "line search: random polynomials of degree 2-6 on a 1-pixel domain, direction +-2^k, all LineSearch parameters, optional FloatingPointError/NaN/huge regions, f_k_minus_1 and longest_step; non-trivial = more than one trial step evaluated.  Minimiser loop: 5 minimisers x generated convex/non-convex n-D quartics x 3 library controllers + scripted controllers x real/parametrised/scripted line searchers; non-trivial = at least one line-search call.  distinct by spec hash",
             "samples": [{"spec": o["spec"], "result": o["result"], "n_evaluations": len(o["log"])} for o in self.ls_obs[3:6]],
             "input_distribution": {"line_search_cases": nls, "entered_zoom": zoomed, "backtracked": backtracked,
@@ -829,7 +1034,9 @@ class C16(C.Check):
                                    "minimiser_runs_ended_by_exception_not_replayed": len(dm_exc),
                                    "minimiser_outcomes": stat, "bfgs_direction_calls": len(self.b_obs),
                                    "bfgs_calls_with_wrapped_ring_buffer": sum(1 for r in self.b_obs if r["k"] > r["mh"]),
-                                   "bfgs_direction_max_rel_deviation_model_vs_impl": worst_dir},
+                                   "bfgs_direction_max_rel_deviation_model_vs_impl": worst_dir,
+                                   "reused_minimiser_objects": len(self.reuse_obs), "runs_on_reused_objects": sum(len(o["reused"]) for o in self.reuse_obs),
+                                   "reused_bfgs_direction_calls": len(rwin), "reused_direction_max_rel_deviation": worst_reuse},
             "disagreements": len(bad) + ndir_bad, "exhaustive": False,
         })
         return bad
@@ -855,6 +1062,12 @@ class C16(C.Check):
                 report("dm", o["spec"], f, {"fn": "DescentMinimizer.__call__", "minimizer": o["spec"]["minimizer"]})
                 if len(res.failing) >= 5:
                     break
+        for o in self.reuse_obs:
+            n += 1
+            f = reuse_failure(o)
+            if f:
+                report("reuse", o["spec"], f, {"fn": o["spec"]["minimizer"] + ".__call__", "class": "re-used object"})
+                break
         for s in self.bfgs_specs:
             n += 1
             f = bfgs_failure(s)
@@ -887,6 +1100,8 @@ class C16(C.Check):
             return wolfe_failure_domain(run_ls_case(i["spec"])) is not None
         if i["kind"] == "dm":
             return dm_failure(run_dm_case(i["spec"])) is not None
+        if i["kind"] == "reuse":
+            return reuse_failure(run_reuse_case(i["spec"])) is not None
         return bfgs_failure(i["spec"]) is not None
 
 
